@@ -25,6 +25,8 @@ POOLS = {
     "plain": (["alpha", "beta", "gamma", "delta", "eps", "zeta"], ["s0", "s1", "s2", "s3"]),
     "keywords": (["xvariable", "probability_a", "tableB", "default1", "network", "statey"], ["yes", "no", "table1", "state2"]),
     "short": (["A", "B", "C", "D", "E", "F"], ["lo", "mid", "hi", "top"]),
+    # keywords as SUFFIXES (followed by white space / punctuation in the file)
+    "suffix": (["timetable", "is_default", "xprobability", "mynetwork", "avariable", "subproperty"], ["notable", "nodefault", "restate", "xtable"]),
 }
 MAGS = {1: [[1.0]],
         2: [[1e-12, 1 - 1e-12], [0.0, 1.0], [1.0 / 3, 2.0 / 3], [1e-7, 1 - 1e-7], [0.5, 0.5], [0.001, 0.999], [1 - 1e-5, 1e-5]],
@@ -37,11 +39,13 @@ FORMATS = ["bif", "xmlbif", "uai", "net"]
 def groups(tier, seed):
     out = []
     cvs = CARDV[:3] if tier == "quick" else CARDV
-    pools = ["plain", "keywords"] if tier == "quick" else list(POOLS)
+    pools = ["plain", "keywords", "suffix"] if tier == "quick" else list(POOLS)
     for n in (1, 2, 3):
         for e in all_dags(n):
-            for cv in cvs:
+            for ci, cv in enumerate(cvs):
                 for pool in pools:
+                    if tier == "quick" and pool != "plain" and ci == 2:
+                        continue
                     out.append({"part": "bn", "n": n, "edges": [list(x) for x in e], "card": list(cv[:n]), "pool": pool})
     out.append({"part": "star"})
     for n in (2, 3):
@@ -188,7 +192,7 @@ def _bn(st, g, tier):
         except Exception as ex:
             st.harness_errors.append({"group": g, "trace": repr(ex)})
             return
-        if pool == "keywords" or any(len({card[p] for p in pa_of[v]}) >= 2 for v in pa_of):
+        if pool in ("keywords", "suffix") or any(len({card[p] for p in pa_of[v]}) >= 2 for v in pa_of):
             st.nt((tuple(edges), tuple(card), pool, str(okey)))
         for fmt in FORMATS:
             for via in ("string", "file"):
